@@ -6,9 +6,12 @@ import (
 	"strings"
 
 	"github.com/koestler/go-victron/veconst"
+	"github.com/koestler/go-victron/vedirect"
+	"github.com/koestler/go-victron/vedirectapi"
 	"github.com/koestler/go-victron/veproduct"
 	"github.com/koestler/go-victron/veregister"
 	"verif/harness/lists"
+	"verif/harness/sport"
 )
 
 // C17: lookup data handed out by the library cannot be corrupted by callers.
@@ -398,6 +401,101 @@ func runCopies() {
 			y, _ := veregister.GetRegisterListByProduct(p)
 			c.expect(fmt.Sprintf("GetRegisterListByProduct(%#x).GetRegisters()", uint16(p)), mut+" on the slice returned by an earlier list", renderRegs(y.GetRegisters()), base)
 		}
+	}
+	// ---- values and lists handed out by a RegisterApi object (a simulated device answers every Get with a fixed value) ----
+	for _, devId := range []uint16{0xA056, 0xA231, 0xA381} {
+		func() {
+			defer func() {
+				if r := recover(); r != nil {
+					c.fails = append(c.fails, fmt.Sprintf("COPY-FAIL register API on device %#x: panic %v", devId, r))
+				}
+			}()
+			frame := func(resp byte, payload []byte) []byte {
+				sum := resp
+				for _, b := range payload {
+					sum += b
+				}
+				chk := byte(0x55 - sum)
+				return []byte(fmt.Sprintf(":%X%X\n", resp, append(append([]byte{}, payload...), chk)))
+			}
+			unhex := func(c byte) byte {
+				switch {
+				case c >= '0' && c <= '9':
+					return c - '0'
+				case c >= 'A' && c <= 'F':
+					return c - 'A' + 10
+				}
+				return 0
+			}
+			p := &sport.Port{}
+			p.OnWrite = func(k int, b []byte) {
+				if len(b) < 3 || b[0] != ':' {
+					return
+				}
+				var ans []byte
+				switch b[1] {
+				case '1':
+					ans = frame(5, []byte{0x16, 0x41})
+				case '4':
+					ans = frame(1, []byte{byte(devId), byte(devId >> 8)})
+				case '7':
+					if len(b) >= 6 {
+						lo := unhex(b[2])<<4 | unhex(b[3])
+						hi := unhex(b[4])<<4 | unhex(b[5])
+						// every register holds 1 (off reason "no input power", warning "low battery", state 1, ...)
+						ans = frame(7, []byte{lo, hi, 0, 1, 0})
+					}
+				}
+				p.Queue = append(p.Queue, sport.Event{Kind: sport.EvData, Data: ans})
+			}
+			api, err := vedirectapi.NewRegisterApi(p, vedirect.Config{})
+			if err != nil || api == nil {
+				c.fails = append(c.fails, fmt.Sprintf("COPY-FAIL cannot connect to the simulated device %#x: %v", devId, err))
+				return
+			}
+			prod := veproduct.Product(devId)
+			fresh, _ := veregister.GetRegisterListByProduct(prod)
+			listBase := renderRegList(fresh)
+			// (1) decoded field sets of values read through the API
+			for _, r := range api.Registers.FieldListRegisters {
+				v1, err := api.ReadFieldListRegister(r)
+				if err != nil {
+					continue
+				}
+				base := fieldMapString(v1.Fields())
+				m := v1.Fields()
+				for k := range m {
+					m[k] = !m[k]
+				}
+				m[foreignField{99}] = true
+				c.expect(fmt.Sprintf("Fields() of the value of %s read through the API (device %#x)", r.Name(), devId), "flip every entry and add one in the map returned earlier", fieldMapString(v1.Fields()), base)
+				v2, err := api.ReadFieldListRegister(r)
+				if err == nil {
+					c.expect(fmt.Sprintf("ReadFieldListRegister(%s).Fields() (device %#x, same raw value as before)", r.Name(), devId), "flip every entry and add one in the map of the earlier value", fieldMapString(v2.Fields()), base)
+				}
+			}
+			// (2) the exported register list of the object: in-place writes by its owner must not reach later lookups
+			for i, j := 0, len(api.Registers.NumberRegisters)-1; i < j; i, j = i+1, j-1 {
+				api.Registers.NumberRegisters[i], api.Registers.NumberRegisters[j] = api.Registers.NumberRegisters[j], api.Registers.NumberRegisters[i]
+			}
+			for i := range api.Registers.EnumRegisters {
+				api.Registers.EnumRegisters[i] = veregister.EnumRegisterStruct{}
+			}
+			api.Registers.TextRegisters = api.Registers.TextRegisters[:0]
+			again, _ := veregister.GetRegisterListByProduct(prod)
+			c.expect(fmt.Sprintf("GetRegisterListByProduct(%#x)", devId), "in-place writes (reverse numbers, zero enums, truncate texts) into RegisterApi.Registers of an object connected to that product", renderRegList(again), listBase)
+			p2 := &sport.Port{}
+			p2.OnWrite = func(k int, b []byte) {
+				p.Queue = nil
+				p.OnWrite(k, b)
+				p2.Queue = append(p2.Queue, p.Queue...)
+				p.Queue = nil
+			}
+			api2, err := vedirectapi.NewRegisterApi(p2, vedirect.Config{})
+			if err == nil && api2 != nil {
+				c.expect(fmt.Sprintf("Registers of a second RegisterApi on a device %#x", devId), "in-place writes into the first object's Registers", renderRegList(api2.Registers), listBase)
+			}
+		}()
 	}
 	// ---- family lists appended into a caller's list ----
 	famBase := func() string {
